@@ -17,10 +17,10 @@ for sid in sorted(os.listdir(f"{V}/seeded")):
         rows.append((sid, pid, meta.get("detected_by_check"), "patch-does-not-apply"))
         continue
     try:
-        if not os.path.exists(f"{V}/evidence/{pid}.json") and pid in ("C18", "C19"):
+        if not os.path.exists(f"{V}/evidence/{pid}.json"):
             out, rc = "not claimed", None
         else:
-            r = subprocess.run([f"{V}/check", pid], capture_output=True, text=True, env=dict(os.environ, VERIF_NO_REPLAY="1"), cwd=V)
+            r = subprocess.run([f"{V}/check", pid], capture_output=True, text=True, env=dict(os.environ, VERIF_NO_REPLAY="1", VERIF_EVIDENCE_DIR="/verif/.cache/seed-evidence"), cwd=V)
             out, rc = r.stdout, r.returncode
     finally:
         subprocess.run(["git", "-C", "/repo", "checkout", "-q", "--", "."], check=True)
@@ -30,7 +30,3 @@ for sid in sorted(os.listdir(f"{V}/seeded")):
     print(sid, pid, "expected", meta.get("detected_by_check"), "got", got, "|", first, flush=True)
 bad = [r for r in rows if r[2] != r[3]]
 print(f"{len(rows)} seeds, {len(bad)} differ from meta.json")
-# restore evidence of the unchanged tree for the properties touched
-for pid in sorted({r[1] for r in rows}):
-    if os.path.exists(f"{V}/evidence/{pid}.json"):
-        subprocess.run([f"{V}/check", pid], capture_output=True, cwd=V)
